@@ -1,5 +1,6 @@
 CONSTANTS
   Dev = {"D_record_hash_ttl"}
+  Mut = {}
   Tier = 1
   Big = 300
 SPECIFICATION Spec
